@@ -266,7 +266,7 @@ func c13WsHandler(w *W) {
 }
 
 func init() {
-	register(&Scenario{Name: "ws-handler-in-application-server", Prop: "C13", Horizon: time.Hour, Weight: 25, Run: c13WsHandler})
+	register(&Scenario{Name: "ws-handler-in-application-server", Prop: "C13", Horizon: time.Hour, Weight: 8, Run: c13WsHandler})
 	register(&Scenario{Name: "ws-handler-in-application-server-mapping", Prop: "C15", Horizon: time.Hour, Weight: 10, Run: c13WsHandler})
 	register(&Scenario{Name: "ws-handler-in-application-server-close", Prop: "C10", Horizon: time.Hour, Weight: 15, Run: c13WsHandler})
 	register(&Scenario{Name: "ws-handler-in-application-server-errors", Prop: "C12", Horizon: time.Hour, Weight: 3, Run: c13WsHandler})
